@@ -67,6 +67,7 @@ def compile_spec(text, params):
 def spec_env():
     env = {k: getattr(specrt, k) for k in dir(specrt) if not k.startswith("_")}
     env.update(dsl.SPECS)
+    env.update(dsl.CONSTS)
     env["__builtins__"] = {"len": len, "abs": abs, "min": min, "max": max, "sum": sum, "range": range,
                            "all": all, "any": any, "int": int, "float": float, "str": str, "bool": bool,
                            "sorted": sorted, "set": set, "list": list, "tuple": tuple, "isinstance": isinstance,
